@@ -24,11 +24,25 @@ enum { KW_NONE = 0, KW_MUTEX, KW_CV, KW_SEM, KW_SLEEP, KW_SPIN, KW_RELOCK };
 enum { KF_NONE = 0, KF_NOTIFIED, KF_TIMEDOUT, KF_INTR };
 static uint8_t K_kind[KN], K_flag[KN]; static int K_err[KN]; static bool K_finite[KN], K_lock_finite[KN];
 static void* K_obj[KN]; static mutex* K_mtx[KN]; static spinlock* K_spin[KN]; static uint64_t K_need[KN]; static unsigned K_seq[KN], K_seqno;
+// KN <= 4: every loop over the model threads is unrolled by macro (no unwinding needed for the contract layer itself)
+#if KN == 1
+#define K_EACH(M) M(0)
+#elif KN == 2
+#define K_EACH(M) M(0) M(1)
+#elif KN == 3
+#define K_EACH(M) M(0) M(1) M(2)
+#elif KN == 4
+#define K_EACH(M) M(0) M(1) M(2) M(3)
+#else
+#error "KN must be 1..4"
+#endif
 static inline thread* K_tid(int i) { return (thread*)(uintptr_t)(0x1000 + 16 * i); }   // opaque, never dereferenced
 static inline int K_earliest(int kind, void* obj)
 {
     int best = -1;
-    for (int i = 0; i < KN; i++) if (K_kind[i] == kind && K_obj[i] == obj && (best < 0 || K_seq[i] < K_seq[best])) best = i;
+#define K_M(i) if (K_kind[i] == kind && K_obj[i] == obj && (best < 0 || K_seq[i] < K_seq[best])) best = i;
+    K_EACH(K_M)
+#undef K_M
     return best;
 }
 static inline void K_hand_mutex(mutex* m)             // the mutex is being released: hand it to the earliest waiter, else free it
@@ -52,7 +66,14 @@ void verif_set_tid(uint32_t);
 uint32_t verif_get_tid();
 #define K_ME ((int)verif_get_tid())
 
-NOINL void K_init() { photon::now = 1000; for (int i = 0; i < KN; i++) { verif_set_tid(i); CURRENT = K_tid(i); } verif_set_tid(0); }
+NOINL void K_init()
+{
+    photon::now = 1000;
+#define K_M(i) { verif_set_tid(i); CURRENT = K_tid(i); }
+    K_EACH(K_M)
+#undef K_M
+    verif_set_tid(0);
+}
 // a thread that only needs a spinlock back (after a cv.wait(spinlock)) is runnable as soon as the spinlock is free; it takes it when picked
 NOINL uint32_t K_is_blocked(uint32_t i) { return K_kind[i] != KW_NONE && !(K_kind[i] == KW_SPIN && !K_spin[i]->locked()) && !(K_kind[i] == KW_RELOCK && K_mtx[i]->owner.load() == nullptr); }
 NOINL void K_try_unblock(uint32_t i)
@@ -121,10 +142,12 @@ NOINL int K_cv_wait_end()
 // An interrupt aimed at a thread that is not blocked is dropped here (the real runtime stores it for a yielded thread: outside this contract).
 NOINL void K_thread_interrupt(thread* th, int err)
 {
-    for (int i = 0; i < KN; i++) if (th == K_tid(i)) {
-        if (K_kind[i] == KW_CV) { K_flag[i] = KF_INTR; K_err[i] = err; if (K_mtx[i]) K_want_mutex(i, K_mtx[i]); else K_kind[i] = KW_SPIN; }
-        else if (K_kind[i] == KW_SEM || K_kind[i] == KW_SLEEP) { K_flag[i] = KF_INTR; K_err[i] = err; K_kind[i] = KW_NONE; }
+#define K_M(i) if (th == K_tid(i)) { \
+        if (K_kind[i] == KW_CV) { K_flag[i] = KF_INTR; K_err[i] = err; if (K_mtx[i]) K_want_mutex(i, K_mtx[i]); else K_kind[i] = KW_SPIN; } \
+        else if (K_kind[i] == KW_SEM || K_kind[i] == KW_SLEEP) { K_flag[i] = KF_INTR; K_err[i] = err; K_kind[i] = KW_NONE; } \
     }
+    K_EACH(K_M)
+#undef K_M
 }
 NOINL thread* K_cv_notify_one(waitq* c, int)
 {
@@ -148,7 +171,9 @@ NOINL uint32_t K_cv_wait_spin_begin(condition_variable* c, spinlock* l, uint64_t
 NOINL int K_cv_notify_all(waitq* c, int e)
 {
     int n = 0;
-    for (int k = 0; k < KN; k++) { if (!K_cv_notify_one(c, e)) break; n++; }
+#define K_M(k) if (n == k && K_cv_notify_one(c, e)) n++;
+    K_EACH(K_M)
+#undef K_M
     return n;
 }
 // ---- semaphore
@@ -172,12 +197,10 @@ NOINL int K_sem_wait_end()
 // semaphore::signal() is inline in thread.h: it adds to m_count itself and then calls try_resume(total)
 NOINL void K_sem_try_resume(semaphore* s, uint64_t)
 {
-    uint64_t c = s->m_count.load();
-    for (int k = 0; k < KN; k++) {
-        int w = K_earliest(KW_SEM, s);
-        if (w < 0 || K_need[w] > c) break;
-        c -= K_need[w]; K_kind[w] = KW_NONE; K_flag[w] = KF_NOTIFIED;
-    }
+    uint64_t c = s->m_count.load(); bool go = true;
+#define K_M(k) if (go) { int w = K_earliest(KW_SEM, s); if (w < 0 || K_need[w] > c) go = false; else { c -= K_need[w]; K_kind[w] = KW_NONE; K_flag[w] = KF_NOTIFIED; } }
+    K_EACH(K_M)
+#undef K_M
     s->m_count.store(c);
 }
 // ---- yield / sleep
